@@ -63,7 +63,10 @@ fn format_field(name: &str, value: &str) -> String {
         | "Breaks" => {
             // Substitution variables (${misc:Depends}) are part of a control file
             let (relations, errors) = Relations::parse_relaxed(value, true);
-            assert!(errors.is_empty(), "{}", errors.join("\n"));
+            if !errors.is_empty() {
+                // Not a relationship field we can read: leave it as it is
+                return value.to_string();
+            }
             let relations = relations.wrap_and_sort();
             relations.to_string()
         }
